@@ -1,5 +1,6 @@
 import Drv.Util
 import Model.Wire
+import Model.Producer
 
 /-! Driver for the `wire` stream (C12): encode typed values, decode byte strings. -/
 namespace Drv.C12
@@ -70,6 +71,11 @@ def step (_ : Unit) (line : String) : Unit × String :=
     | "dec-sd" =>
       match SignedData.decode keyOk (o.bytes "b") with
       | some sd => s!"ok {showData sd.data} sig={hx sd.signature} {showSigner sd.signer} re={hx sd.encode} dac={hx sd.data.daCommitment}"
+      | none => "err"
+    | "bd-enc" => s!"bytes={hx (Producer.batchDataToBytes (o.list "list"))}"
+    | "bd-dec" =>
+      match Producer.bytesToBatchData (o.bytes "b") with
+      | some l => s!"ok list={hexList l}"
       | none => "err"
     | _ => "bad-op"
   ((), out)
